@@ -180,8 +180,11 @@ PROPS = {
         "assumptions": [],
     },
     "C15": {
-        "statement": "Async.accessor_quiescent / dispatch_quiescent / running_true_while_open / running_false_only_done / no_overtake / tl_only_in_wait / wait_runs_tl / each_once / each_at_most_once / quiet_quiescent / quiet_stutters / blocked_only_while_running / job_panic_no_return / job_panic_no_tl / job_panic_no_hook / job_panic_no_quiet / job_panic_no_next_dispatch / dead_every_call_unwinds / unwound_cases / tl_panic_keeps_dispatcher / setup_reaches / hook_only_in_setup over every run (all interleavings of caller steps — every public method incl. res / mut_res, in every order —, background-job steps and the environment's look at the systems' own completion signal) of the transition system of Model/Async.lean; acceptsLog_sound transfers them to every merged log the driver accepts",
-        # hist = n: every sequence of n steps (11 entry points x {idle, held, queued, settled, panicked, panicking}); 66^n cases
+        "statement": "Async.accessor_quiescent / dispatch_quiescent / running_true_while_open / running_false_only_done / no_overtake / tl_only_in_wait / wait_runs_tl / each_once / each_at_most_once / quiet_quiescent / quiet_stutters / blocked_only_while_running / job_panic_no_return / job_panic_no_tl / job_panic_no_hook / job_panic_no_quiet / job_panic_no_next_dispatch / dead_every_call_unwinds / unwound_cases / tl_panic_keeps_dispatcher / setup_reaches / hook_only_in_setup / chain_each_stage_once (plans of any number of stages) over every run (all interleavings of caller steps — every public method incl. res / mut_res, in every order —, background-job steps and the environment's look at the systems' own completion signal) of the transition system of Model/Async.lean; acceptsLog_sound transfers them to every merged log the driver accepts",
+        # hist = n: every sequence of n steps (11 entry points x {idle, held, queued, settled, panicked, panicking}); 66^n histories,
+        # each on one of 10 plans (two long ones: 9 and 12 stages) in one of 3 calling contexts (the dispatcher is driven by a
+        # plain thread / a worker of its own pool / a worker of another pool); hist = 1: every step x plan x context.
+        # 22 % of the random cases have plans of 8-20 stages; every random case has a random calling context
         "engines": [{"engine": "asyncd", "args": {}, "quick": {"cases": 600, "hist": 2}, "thorough": {"cases": 20000, "hist": 3, "hist-stride": 6},
                      "search": {"cases": 6000, "hist": 2}}],
         "aspects": ["*"],
@@ -189,6 +192,7 @@ PROPS = {
             "std::sync::mpsc: recv returns only after send; try_recv never invents a message (modelled as a one-slot mailbox, not verified)",
             "rayon ThreadPool::spawn runs the closure once on a pool thread; a panic inside it unwinds the closure (dropping its captures, the sender among them) and then calls the pool's panic_handler — the harness pools have one; without a handler rayon aborts the process (outside the model); for_each re-raises a group's panic only after every group that has started has ended",
             "the job's stage loop produces exactly the traces of the stages task of the model's layout (C01-C04 correspondence)",
+            "the calling context is not a parameter of the model: ThreadPool::spawn only queues (on the calling worker's own deque when the caller is a worker of that pool, where another worker steals it), std::sync::mpsc recv / try_recv park or poll the calling thread without running pool jobs, ThreadPool::install runs its closure on a worker of that pool; with the caller on the dispatcher's own pool the job needs a second worker to be scheduled (a one-thread pool driven from its own worker is not generated: a blocking call after a dispatch cannot return there on the unchanged crate)",
             "one SeqCst-ordered log: F is logged before the first borrow and D after the last release, ret after the call returned",
             "a call is reported as stuck (MODEL:async-progress) only after the calling thread has been seen parked inside it at every sample over 5 s while no system is inside run, nothing is held by the harness and every pool worker is parked (Linux /proc thread states; without them no such report is made)",
         ],
